@@ -141,6 +141,25 @@ func c16(args []string) {
 			jobs = append(jobs, &job{s: s2, exp: exp2, cfg: cfg(), kind: "runto", what: mode + " " + strings.Join(targets, ",")})
 		}
 	}
+	// process names that contain regexp metacharacters, with siblings that differ only there
+	{
+		s := &spec.Spec{Name: "metanames", MaxTasks: 4, Sources: map[string]string{"m0.txt": "m0\n", "m1.txt": "m1\n"}}
+		s.Procs = append(s.Procs, &spec.Proc{Name: "src", Kind: spec.KFileSource, Files: []string{"m0.txt", "m1.txt"}})
+		names := []string{"filter.v1", "filter_v1", "filterXv1", "a-b", "a.b"}
+		for _, n := range names {
+			s.Procs = append(s.Procs, &spec.Proc{Name: n, Kind: spec.KCmd, Cmd: spec.BuildCmd(n, []spec.PortDecl{{Name: "in"}}, []spec.PortDecl{{Name: "out"}}, nil, nil, nil),
+				Outs: []*spec.Out{{Port: "out", Pattern: "{i:in|basename}." + strings.NewReplacer(".", "DOT", "-", "DASH").Replace(n) + ".out"}}})
+			s.Conns = append(s.Conns, &spec.Conn{From: "src.out", To: n + ".in"})
+		}
+		for _, n := range names {
+			for _, mode := range []string{"runto", "runtoprocs"} {
+				s2 := s.Clone()
+				s2.Run = spec.Run{Mode: mode, Targets: []string{n}}
+				exp2 := evalRef(s2, nil)
+				jobs = append(jobs, &job{s: s2, exp: exp2, cfg: Cfg{Buf: 3, Procs: 2}, kind: "runto", what: mode + " " + n})
+			}
+		}
+	}
 	run.Parallel(len(jobs), func(i int) {
 		j := jobs[i]
 		root := c.CaseDir()
